@@ -1922,7 +1922,9 @@ class C08(HistProp):
                 "that also delete non-OPT records and set their TTLs, addresses and owner names through a cursor placed with set_offset + recompute "
                 "(C08_histories_with_cursor, every step applicable where applied), and every such history runs to the end with no Panic outcome, "
                 "a step that reports an error changing nothing (C08_histories_with_cursor_total); the same from any freshly parsed response "
-                "whose first operation is an insertion or a recompute (C08_histories_from_parse_with_cursor, ..._total); plus frame/shape lemmas "
+                "whose first operation is an insertion or a recompute (C08_histories_from_parse_with_cursor, ..._total); the decompress-and-"
+                "translate prologue of delete / set_raw_name on any parsed packet succeeds, establishes the invariant and keeps the cursor on "
+                "the same record (C08_cursor_decompress); plus frame/shape lemmas "
                 "(C08_insert_shape, C08_header_setters_keep_view); with failing steps tolerated every such history runs to the end without a "
                 "Panic outcome (C08_histories_total). Operations that move the cursor (TTL / address / name setters, deletion, "
                 "cursor decompression), insertion of OPT records or of a question, and histories on synthesised objects are decided each run "
@@ -1979,7 +1981,9 @@ class C09(HistProp):
                 "set_raw_name replaces exactly that record's owner labels by the labels the checker accepted (growing, shrinking or equal "
                 "length), every other record, the counts and the flag word stay, the invariant is kept (C09_set_name_on_decompressed). The "
                 "address setter from any such state: success means an A record given 4 bytes or an AAAA record given 16, and exactly that "
-                "record's data is replaced (C09_set_ip_on_decompressed). Further lemmas: C09_insert_appends (bytes after a successful insert = bytes before with the record spliced at the "
+                "record's data is replaced (C09_set_ip_on_decompressed). Deletion on a packet as the parser returned it, compressed or not: "
+                "the prologue translates the cursor to the same record of the pointer-free packet, the deletion removes exactly that record "
+                "(C09_delete_on_parsed_packet). Further lemmas: C09_insert_appends (bytes after a successful insert = bytes before with the record spliced at the "
                 "end of the section, one count incremented), C09_set_ttl_frame (only 4 bytes change), C09_set_ttl_effect (on a section that reads "
                 "declaratively as records l, after set_rr_ttl t on the k-th cursor the section walk returns the views of l with the k-th TTL "
                 "replaced by t and nothing else changed, PROVIDED no owner name of the section is read through the 4 bytes written; "
@@ -2107,8 +2111,10 @@ class C11(HistProp):
                 "(C11_second_delete_void), an emptied section is absent (C11_section_offsets); composed: the loop next / decide / delete over "
                 "a record section returns what the machine returns, other sections untouched (C11_concrete_walk_refines_machine), so from a "
                 "fresh cursor it terminates with exactly the survivors, each yielded (C11_concrete_walk_exact), for every decision that "
-                "depends only on the record under the cursor and spares OPT (such decisions exist: C11_delete_everything_but_opt). "
-                "PARTIAL: the OPT-skipping variant of next(), walks that start on a compressed object and the question section are decided "
+                "depends only on the record under the cursor and spares OPT (such decisions exist: C11_delete_everything_but_opt); the same "
+                "from the object as the parser returned it, compressed or not (C11_walk_on_any_object, C11_delete_on_any_object, "
+                "C11_parsed_packets_are_such_objects): the first deletion runs the decompress-and-translate prologue, which lands on the "
+                "same record of the pointer-free packet. PARTIAL: the OPT-skipping variant of next() and the question section are decided "
                 "each run by the correspondence over all subsets of small sections.")
 
     def gen(self, rng, tier):
